@@ -17,6 +17,25 @@ access on objects of translated classes (classes whose __init__ only stores its 
 used methods are `return self.<attr>`), construction of such objects, calls of translated functions
 that mutate none of their parameters.  Aliasing guard: a plain `name = othername` assignment is
 rejected (two names for one mutable list would break the by-value reading of append).
+
+Extensions used by C17 (each is off unless the spec asks for it):
+* floats: a float literal is its exact rational value (`EFloat`); comparisons of floats (and of a float with an int)
+  are exact (`VQ`); `abs(x)`; `a / b` on ints is a call of "$truediv" in the function table, whose rounding is the
+  Section variable `fdiv` of the generated module (spec["float_div"] = True); no other float arithmetic.
+* `x in l` / `x not in l` (`EIn`; rejected if a translated class defines __eq__), `x is None` / `x is not None`
+  (== / != None: no translated class overrides __eq__).
+* state classes, spec["state_classes"] = [(file, Class, id, [attrs])]: an object is `VObj id [attr values]`; a method
+  (spec function "Class.method") is a function whose first parameter is the object; it may read `self.<attr>` and, as
+  its LAST top-level statement only, rebind `self.<attr> = e` (the object is then a mutated parameter, written back
+  by the caller); any other use of an attribute of self is rejected.  `obj.method(args)` is a call of that function
+  when `obj` is `self` or a name declared in the slice's "objects" (checked: bound once, by `obj = Class(...)`).
+* externals, spec["externals"] = [(file, function)]: module-level functions that are NOT translated; a call is a call
+  of the Section variable `ext_<f> : list val -> res val` (any function of the argument values that mutates none).
+* spec["outputs"] = {"WriteClump": {"stream": "$out", "args": [0, 1]}}: the statement `WriteClump(a, b, f)` appends the
+  tuple (a, b) to the list parameter "$out"; the other arguments must be plain names.
+* spec["ignore_calls"] = ["log.debug"]: such a call statement is skipped (logging; its arguments are not evaluated).
+* a while-slice {"name", "while_var", "params", "objects"}: the statement `<while_var> = ...` immediately followed by
+  `while <while_var> is not None:` at the top level of the function, as a synthetic function.
 """
 import ast
 import os
@@ -45,8 +64,47 @@ def clist(items):
 
 
 class ClassInfo:
-    def __init__(self, name, cid, fields, getters):
+    def __init__(self, name, cid, fields, getters, state=False, methods=None):
         self.name, self.cid, self.fields, self.getters = name, cid, fields, getters
+        self.state = state              # a state class: objects are not constructed by translated code
+        self.methods = methods or {}    # state class: method name -> ast.FunctionDef
+
+
+class Ctx:
+    """options shared by the functions of one translation (all off by default)"""
+    def __init__(self, spec=None):
+        spec = spec or {}
+        self.float_div = bool(spec.get("float_div"))
+        self.outputs = dict(spec.get("outputs", {}))
+        self.ignore_calls = set(spec.get("ignore_calls", []))
+        self.method_owner = {}          # translated method name -> class name
+
+
+def parse_state_class(node, cid, attrs):
+    """a class whose objects carry mutable state: only the named attributes are modelled"""
+    methods = {}
+    for item in node.body:
+        if isinstance(item, ast.Expr) and isinstance(item.value, ast.Constant):
+            continue
+        if not isinstance(item, ast.FunctionDef):
+            _bad(item, f"class {node.name}: unsupported member")
+        if item.name in ("__eq__", "__ne__", "__hash__", "__getattr__", "__getattribute__", "__setattr__", "__contains__"):
+            _bad(item, f"class {node.name} defines {item.name}")
+        if item.decorator_list:
+            _bad(item, f"class {node.name}.{item.name} is decorated")
+        methods[item.name] = item
+    if node.bases or node.keywords or node.decorator_list:
+        _bad(node, f"class {node.name} has base classes / decorators")
+    init = methods.get("__init__")
+    if init is None:
+        _bad(node, f"class {node.name} has no __init__")
+    selfname = init.args.args[0].arg
+    set_in_init = {t.attr for st in ast.walk(init) if isinstance(st, ast.Assign) for t in st.targets
+                   if isinstance(t, ast.Attribute) and isinstance(t.value, ast.Name) and t.value.id == selfname}
+    for a in attrs:
+        if a not in set_in_init:
+            _bad(init, f"class {node.name}.__init__ does not set self.{a}")
+    return ClassInfo(node.name, cid, list(attrs), {}, state=True, methods=methods)
 
 
 def parse_class(node, cid):
@@ -82,6 +140,8 @@ def parse_class(node, cid):
             getters[item.name] = body[0].value.attr
         else:
             getters[item.name] = None  # present but not a getter: using it is untranslatable
+    if node.bases or node.keywords:
+        _bad(node, f"class {node.name} has base classes")
     if fields is None:
         _bad(node, f"class {node.name} has no __init__")
     return ClassInfo(node.name, cid, fields, getters)
@@ -93,8 +153,10 @@ class FunInfo:
 
 
 class FunTranslator:
-    def __init__(self, node, classes, funs, strtab=None):
+    def __init__(self, node, classes, funs, strtab=None, ctx=None, objects=None):
         self.node, self.classes, self.funs = node, classes, funs
+        self.ctx = ctx or Ctx()
+        self.objects = dict(objects or {})   # name -> state class name (the receiver of method calls)
         a = node.args
         if a.vararg or a.kwarg or a.kwonlyargs or a.defaults or a.posonlyargs or node.decorator_list:
             _bad(node, "unsupported signature")
@@ -130,6 +192,30 @@ class FunTranslator:
             _bad(node, f"no translated class has {'method' if method else 'attribute'} {attr}")
         return clist(f"({cz(i)}, {j}%nat)" for i, j in c)
 
+    def float_lit(self, node, x):
+        from fractions import Fraction
+        if x != x or x in (float("inf"), float("-inf")):
+            _bad(node, "non-finite float literal")
+        fr = Fraction(x)
+        return f"(EFloat (Qmake {cz(fr.numerator)} {fr.denominator}%positive))"
+
+    def no_eq_override(self, node):
+        for ci in self.classes.values():
+            if any(m in ci.getters or m in ci.methods for m in ("__eq__", "__ne__", "__contains__")):
+                _bad(node, f"class {ci.name} overrides equality")
+
+    def call_target(self, e):
+        """(FunInfo, argument nodes) of a call of a translated / external function or of a translated method"""
+        if not isinstance(e, ast.Call):
+            return None
+        f = e.func
+        if isinstance(f, ast.Name) and f.id in self.funs and f.id not in self.ctx.method_owner:
+            return self.funs[f.id], list(e.args)
+        if isinstance(f, ast.Attribute) and isinstance(f.value, ast.Name) and f.attr in self.ctx.method_owner \
+                and self.objects.get(f.value.id) == self.ctx.method_owner[f.attr]:
+            return self.funs[f.attr], [f.value] + list(e.args)
+        return None
+
     def expr(self, e):
         if isinstance(e, ast.Constant):
             if e.value is None:
@@ -140,11 +226,15 @@ class FunTranslator:
                 return f"(EInt {cz(e.value)})"
             if isinstance(e.value, str):
                 return f"(EStr {cz(self.strtab.setdefault(e.value, 1000 + len(self.strtab)))})"
+            if isinstance(e.value, float):
+                return self.float_lit(e, e.value)
             _bad(e, f"constant {e.value!r}")
         if isinstance(e, ast.Name):
             return f"(EVar {cstr(self.name(e))})"
         if isinstance(e, ast.BinOp):
             ops = {ast.Add: "Add", ast.Sub: "Sub", ast.Mult: "Mul", ast.FloorDiv: "FloorDiv", ast.Mod: "Mod"}
+            if isinstance(e.op, ast.Div) and self.ctx.float_div:
+                return f"(ECall {cstr('$truediv')} {clist([self.expr(e.left), self.expr(e.right)])})"
             if type(e.op) not in ops:
                 _bad(e, f"operator {type(e.op).__name__}")
             return f"(EBin {ops[type(e.op)]} {self.expr(e.left)} {self.expr(e.right)})"
@@ -155,6 +245,8 @@ class FunTranslator:
                 if isinstance(e.operand, ast.Constant) and isinstance(e.operand.value, int) \
                         and not isinstance(e.operand.value, bool):
                     return f"(EInt {cz(-e.operand.value)})"
+                if isinstance(e.operand, ast.Constant) and isinstance(e.operand.value, float):
+                    return self.float_lit(e, -e.operand.value)
                 return f"(ENeg {self.expr(e.operand)})"
             _bad(e, "unary operator")
         if isinstance(e, ast.BoolOp):
@@ -167,6 +259,16 @@ class FunTranslator:
             if len(e.ops) != 1:
                 _bad(e, "chained comparison")
             ops = {ast.Eq: "CEq", ast.NotEq: "CNe", ast.Lt: "CLt", ast.LtE: "CLe", ast.Gt: "CGt", ast.GtE: "CGe"}
+            if isinstance(e.ops[0], (ast.Is, ast.IsNot)):
+                c = e.comparators[0]
+                if not (isinstance(c, ast.Constant) and c.value is None):
+                    _bad(e, "`is` with something other than None")
+                self.no_eq_override(e)
+                return f"(ECmp {'CEq' if isinstance(e.ops[0], ast.Is) else 'CNe'} {self.expr(e.left)} ENone)"
+            if isinstance(e.ops[0], (ast.In, ast.NotIn)):
+                self.no_eq_override(e)
+                neg = "true" if isinstance(e.ops[0], ast.NotIn) else "false"
+                return f"(EIn {neg} {self.expr(e.left)} {self.expr(e.comparators[0])})"
             if type(e.ops[0]) not in ops:
                 _bad(e, f"comparison {type(e.ops[0]).__name__}")
             return f"(ECmp {ops[type(e.ops[0])]} {self.expr(e.left)} {self.expr(e.comparators[0])})"
@@ -208,12 +310,16 @@ class FunTranslator:
                     return f"(ERange {self.expr(e.args[0])})"
                 if f.id == "int" and len(e.args) == 1:
                     return f"(EToInt {self.expr(e.args[0])})"
+                if f.id == "abs" and len(e.args) == 1:
+                    return f"(EAbs {self.expr(e.args[0])})"
                 if f.id in self.classes:
                     ci = self.classes[f.id]
+                    if ci.state:
+                        _bad(e, f"construction of an object of the state class {f.id}")
                     if len(e.args) != len(ci.fields):
                         _bad(e, f"{f.id}() with {len(e.args)} arguments")
                     return f"(ENew {cz(ci.cid)} {clist(self.expr(x) for x in e.args)})"
-                if f.id in self.funs:
+                if f.id in self.funs and f.id not in self.ctx.method_owner:
                     fi = self.funs[f.id]
                     if fi.mutated:
                         _bad(e, f"call of {f.id}, which mutates a parameter, inside an expression")
@@ -225,6 +331,16 @@ class FunTranslator:
                     and f.value.id == "np" and len(e.args) == 1:
                 # handled below (keywords carry the dtype)
                 pass
+            tgt = self.call_target(e)
+            if tgt is not None:
+                fi, args = tgt
+                if fi.mutated:
+                    _bad(e, f"call of {fi.name}, which mutates a parameter, inside an expression")
+                if len(args) != len(fi.params):
+                    _bad(e, f"{fi.name}() with {len(args)} arguments")
+                return f"(ECall {cstr(fi.name)} {clist(self.expr(x) for x in args)})"
+            if isinstance(f, ast.Attribute) and f.attr in self.ctx.method_owner:
+                _bad(e, f"call of method {f.attr} on something that is not a declared {self.ctx.method_owner[f.attr]} object")
             if isinstance(f, ast.Attribute) and not e.args:
                 return f"(EField {self.expr(f.value)} {self.getter_cands(f.attr, e, True)})"
             if isinstance(f, ast.Attribute) and f.attr == "index" and len(e.args) == 1:
@@ -254,11 +370,11 @@ class FunTranslator:
 
     def call_stmt(self, dst, call):
         """dst = f(args) for a translated f, with write-back of the parameters f mutates."""
-        fi = self.funs[call.func.id]
-        if call.keywords or len(call.args) != len(fi.params):
+        fi, cargs = self.call_target(call)
+        if call.keywords or len(cargs) != len(fi.params):
             _bad(call, f"{fi.name}() call shape")
         wbs = []
-        for i, a in enumerate(call.args):
+        for i, a in enumerate(cargs):
             if i in fi.mutated:
                 lv, nm = self.lval(a, f"argument {i} of {fi.name} (mutated by it)")
                 self.mark_mutated(nm, call)
@@ -266,7 +382,7 @@ class FunTranslator:
             else:
                 wbs.append("None")
         d = f"(Some {cstr(dst)})" if dst else "None"
-        return f"(SCall {d} {cstr(fi.name)} {clist(self.expr(a) for a in call.args)} {clist(wbs)})"
+        return f"(SCall {d} {cstr(fi.name)} {clist(self.expr(a) for a in cargs)} {clist(wbs)})"
 
     @staticmethod
     def oracle_bound(e):
@@ -292,8 +408,18 @@ class FunTranslator:
             self.oracles.append(stream)
 
     def is_fun_call(self, e):
-        return isinstance(e, ast.Call) and isinstance(e.func, ast.Name) and e.func.id in self.funs \
-            and self.funs[e.func.id].mutated
+        tgt = self.call_target(e)
+        return tgt is not None and bool(tgt[0].mutated)
+
+    @staticmethod
+    def dotted(f):
+        parts = []
+        while isinstance(f, ast.Attribute):
+            parts.append(f.attr)
+            f = f.value
+        if isinstance(f, ast.Name):
+            return ".".join([f.id] + parts[::-1])
+        return None
 
     def fresh(self):
         self.tmp += 1
@@ -319,11 +445,10 @@ class FunTranslator:
                 _bad(s, "multiple assignment targets")
             t = s.targets[0]
             if isinstance(t, ast.Tuple) and all(isinstance(x, ast.Name) for x in t.elts) \
-                    and isinstance(s.value, ast.Call) and isinstance(s.value.func, ast.Name) \
-                    and s.value.func.id in self.funs:
+                    and self.call_target(s.value) is not None:
                 # a, b = f(...): hoisted; unpacking a result of another length is a ValueError
                 tmp = self.fresh()
-                fi = self.funs[s.value.func.id]
+                fi = self.call_target(s.value)[0]
                 call = self.call_stmt(tmp, s.value) if fi.mutated else \
                     f"(SAssign {cstr(tmp)} {self.expr(s.value)})"
                 out = [call, f"(SIf (ECmp CNe (ELen (EVar {cstr(tmp)})) (EInt {len(t.elts)})) (SRaise 1) SSkip)"]
@@ -348,6 +473,20 @@ class FunTranslator:
                 self.name(t.value)
                 self.mark_mutated(t.value.id, s)
                 return f"(SSetIdx {cstr(t.value.id)} {self.expr(t.slice)} {self.expr(s.value)})"
+            if isinstance(t, ast.Attribute) and isinstance(t.value, ast.Name) and t.value.id in self.objects \
+                    and self.params and t.value.id == self.params[0]:
+                # self.<attr> = e: the object is rebuilt with that attribute replaced.  Only as the last top-level
+                # statement of the method (nothing can then observe the sharing of e's value with another name)
+                ci = self.classes[self.objects[t.value.id]]
+                if t.attr not in ci.fields:
+                    _bad(s, f"attribute {t.attr} of {ci.name} is not a declared state attribute")
+                if s is not self.final_stmt:
+                    _bad(s, f"self.{t.attr} is rebound before the end of the method")
+                obj = t.value.id
+                flds = [self.expr(s.value) if a == t.attr else f"(EField (EVar {cstr(obj)}) [({cz(ci.cid)}, {i}%nat)])"
+                        for i, a in enumerate(ci.fields)]
+                self.mutated.add(0)
+                return f"(SAssign {cstr(obj)} (ENew {cz(ci.cid)} {clist(flds)}))"
             _bad(s, "assignment target")
         if isinstance(s, ast.AugAssign):
             if not isinstance(s.target, ast.Name):
@@ -357,6 +496,16 @@ class FunTranslator:
             return f"(SAssign {cstr(s.target.id)} {self.expr(fake)})"
         if isinstance(s, ast.Expr):
             v = s.value
+            if isinstance(v, ast.Call) and self.dotted(v.func) in self.ctx.ignore_calls:
+                return "SSkip"
+            if isinstance(v, ast.Call) and isinstance(v.func, ast.Name) and v.func.id in self.ctx.outputs:
+                o = self.ctx.outputs[v.func.id]
+                if v.keywords or any(not isinstance(a, ast.Name) for i, a in enumerate(v.args) if i not in o["args"]):
+                    _bad(s, f"{v.func.id}(): the arguments that are not recorded must be plain names")
+                if max(o["args"]) >= len(v.args):
+                    _bad(s, f"{v.func.id}() call shape")
+                self.use_oracle(o["stream"])
+                return f"(SAppend (LVar {cstr(o['stream'])}) (ETuple {clist(self.expr(v.args[i]) for i in o['args'])}))"
             if isinstance(v, ast.Call) and isinstance(v.func, ast.Attribute) and v.func.attr == "append" \
                     and len(v.args) == 1 and not v.keywords:
                 lv, nm = self.lval(v.func.value, "append target")
@@ -390,7 +539,7 @@ class FunTranslator:
                 _bad(s, "for-else / non-name loop target")
             it = self.expr(s.iter)
             root = s.iter
-            while isinstance(root, ast.Subscript):
+            while isinstance(root, (ast.Subscript, ast.Attribute)):
                 root = root.value
             self.iterating.append(root.id if isinstance(root, ast.Name) else None)
             body = self.block(s.body)
@@ -466,6 +615,8 @@ class FunTranslator:
         self.assigned = self.collect_assigned()
         self.locals = list(self.assigned)
         self.iterating = []
+        real = [st for st in self.node.body if not (isinstance(st, ast.Expr) and isinstance(st.value, ast.Constant))]
+        self.final_stmt = real[-1] if real else None
         body = self.block(self.node.body)
         for stream in self.oracles:
             # each recorded draw stream is an extra, mutated, trailing parameter
@@ -509,9 +660,58 @@ def slice_function(fn, sl):
     return ast.FunctionDef(name=sl["name"], args=args, body=list(stmts) + [ret], decorator_list=[], lineno=fn.lineno)
 
 
+def slice_while(fn, sl):
+    """`<v> = ...` immediately followed by `while <v> is not None:` at the top level of `fn`, as a synthetic function.
+
+    sl = {"name": new name, "while_var": v, "params": parameter names, "objects": {name: state class}}.
+    Every name in "objects" must be bound exactly once in `fn`, by `name = Class(...)`."""
+    v = sl["while_var"]
+
+    def is_loop(st):
+        t = st.test if isinstance(st, ast.While) else None
+        return (t is not None and isinstance(t, ast.Compare) and len(t.ops) == 1 and isinstance(t.ops[0], ast.IsNot)
+                and isinstance(t.left, ast.Name) and t.left.id == v and isinstance(t.comparators[0], ast.Constant)
+                and t.comparators[0].value is None)
+
+    idx = [i for i, st in enumerate(fn.body) if is_loop(st)]
+    if len(idx) != 1 or idx[0] == 0 or sum(1 for n in ast.walk(fn) if isinstance(n, ast.While) and is_loop(n)) != 1:
+        _bad(fn, f"{fn.name}: no unique top-level `while {v} is not None:` loop")
+    first = fn.body[idx[0] - 1]
+    if not (isinstance(first, ast.Assign) and len(first.targets) == 1 and isinstance(first.targets[0], ast.Name)
+            and first.targets[0].id == v):
+        _bad(first, f"{fn.name}: the statement before the loop does not assign {v}")
+    for name, cls in sl.get("objects", {}).items():
+        binds = []
+        for n in ast.walk(fn):
+            tg = []
+            if isinstance(n, ast.Assign):
+                tg = n.targets
+            elif isinstance(n, (ast.AugAssign, ast.AnnAssign, ast.For)):
+                tg = [n.target]
+            elif isinstance(n, ast.With):
+                tg = [i.optional_vars for i in n.items if i.optional_vars is not None]
+            elif isinstance(n, ast.NamedExpr):
+                tg = [n.target]
+            for t in tg:
+                for x in ast.walk(t):
+                    if isinstance(x, ast.Name) and x.id == name:
+                        binds.append(n)
+        ok = (len(binds) == 1 and isinstance(binds[0], ast.Assign) and len(binds[0].targets) == 1
+              and isinstance(binds[0].targets[0], ast.Name) and isinstance(binds[0].value, ast.Call)
+              and isinstance(binds[0].value.func, ast.Name) and binds[0].value.func.id == cls
+              and name not in [a.arg for a in fn.args.args])
+        if not ok:
+            _bad(fn, f"{fn.name}: {name} is not bound exactly once, by {name} = {cls}(...)")
+    args = ast.arguments(posonlyargs=[], args=[ast.arg(arg=p) for p in sl["params"]], vararg=None, kwonlyargs=[],
+                         kw_defaults=[], kwarg=None, defaults=[])
+    return ast.FunctionDef(name=sl["name"], args=args, body=[first, fn.body[idx[0]]], decorator_list=[],
+                           lineno=fn.lineno)
+
+
 def translate(spec, repo):
     """spec = {"module": "Gen_X", "classes": [(relfile, ClassName, id)], "functions": [(relfile, fname)]}
-    Functions are translated in the order given; each may call the earlier ones."""
+    Functions are translated in the order given; each may call the earlier ones.  Optional keys: see the module
+    docstring (float_div, state_classes, externals, outputs, ignore_calls)."""
     trees = {}
 
     def tree(rel):
@@ -520,39 +720,99 @@ def translate(spec, repo):
                 trees[rel] = ast.parse(f.read())
         return trees[rel]
 
+    def top(rel, kind, name):
+        nodes = [n for n in tree(rel).body if isinstance(n, kind) and n.name == name]
+        if len(nodes) != 1:
+            raise Untranslatable(f"{rel}: {kind.__name__} {name} not found exactly once at module level")
+        return nodes[0]
+
+    ctx = Ctx(spec)
     classes, funs, strtab = {}, {}, {}
     out = ["(* GENERATED by harness/pytrans.py from the current source of the repository - do not edit *)",
-           "From HV Require Import Prelude MiniPy.", "From Coq Require Import String.",
+           "From HV Require Import Prelude MiniPy.", "From Coq Require Import String" +
+           (" QArith" if ctx.float_div else "") + ".",
            "Open Scope string_scope.", "Open Scope Z_scope.", ""]
     for rel, cname, cid in spec.get("classes", []):
-        nodes = [n for n in tree(rel).body if isinstance(n, ast.ClassDef) and n.name == cname]
-        if len(nodes) != 1:
-            raise Untranslatable(f"{rel}: class {cname} not found exactly once")
-        ci = parse_class(nodes[0], cid)
+        ci = parse_class(top(rel, ast.ClassDef, cname), cid)
         classes[cname] = ci
         out.append(f"(* class {cname} = VObj {cid} [{'; '.join(ci.fields)}] *)")
         out.append(f"Definition cls_{cname} : Z := {cz(cid)}.")
         out.append(f"Definition fields_{cname} : list string := {clist(cstr(x) for x in ci.fields)}.")
+    for rel, cname, cid, attrs in spec.get("state_classes", []):
+        ci = parse_state_class(top(rel, ast.ClassDef, cname), cid, attrs)
+        classes[cname] = ci
+        out.append(f"(* state class {cname} = VObj {cid} [{'; '.join(ci.fields)}] (other attributes are not modelled) *)")
+        out.append(f"Definition cls_{cname} : Z := {cz(cid)}.")
+        out.append(f"Definition fields_{cname} : list string := {clist(cstr(x) for x in ci.fields)}.")
     out.append("")
+    externals = []
+    for rel, fname in spec.get("externals", []):
+        node = top(rel, ast.FunctionDef, fname)
+        a = node.args
+        if a.vararg or a.kwarg or a.kwonlyargs or a.defaults or a.posonlyargs:
+            _bad(node, f"external {fname}: unsupported signature")
+        funs[fname] = FunInfo(fname, [x.arg for x in a.args], set())
+        externals.append(fname)
+    section = ctx.float_div or bool(externals)
     prev_ft = "ft_empty"
+    if section:
+        out.append("Section Gen.")
+        if ctx.float_div:
+            out.append("(* the float64 nearest to x / y, by its exact value (Python's int / int) *)")
+            out.append("Variable fdiv : Z -> Z -> Q.")
+        for fname in externals:
+            out.append(f"(* {fname}({', '.join(funs[fname].params)}): not translated; any function of the argument values *)")
+            out.append(f"Variable ext_{fname} : list val -> res val.")
+        base = "ft_empty"
+        for fname in reversed(externals):
+            base = f"(ft_add {cstr(fname)} (ext_fn ext_{fname}) {base})"
+        if ctx.float_div:
+            base = f"(ft_add {cstr('$truediv')} (truediv_fn fdiv) {base})"
+        out.append(f"Definition ft_base : ftable := {base}.")
+        out.append("")
+        prev_ft = "ft_base"
     for k, item in enumerate(spec["functions"]):
         rel, fname = item[0], item[1]
-        nodes = [n for n in tree(rel).body if isinstance(n, ast.FunctionDef) and n.name == fname]
-        if len(nodes) != 1:
-            raise Untranslatable(f"{rel}: function {fname} not found exactly once at module level")
-        node = nodes[0]
-        if len(item) > 2:
-            node = slice_function(node, item[2])
-            fname = node.name
-        text, fi = FunTranslator(node, classes, funs, strtab).run()
+        objects = {}
+        if "." in fname:
+            cname, mname = fname.split(".", 1)
+            ci = classes.get(cname)
+            if ci is None or not ci.state:
+                raise Untranslatable(f"{fname}: {cname} is not a declared state class")
+            top(rel, ast.ClassDef, cname)
+            node = ci.methods.get(mname)
+            if node is None or not node.args.args:
+                raise Untranslatable(f"{rel}: method {fname} not found")
+            if mname in funs:
+                raise Untranslatable(f"{fname}: the name {mname} is already taken by a translated function")
+            objects = {node.args.args[0].arg: cname}
+            fname = mname
+        else:
+            node = top(rel, ast.FunctionDef, fname)
+            if len(item) > 2:
+                if "while_var" in item[2]:
+                    node = slice_while(node, item[2])
+                    objects = dict(item[2].get("objects", {}))
+                    for cname in objects.values():
+                        if cname not in classes or not classes[cname].state:
+                            raise Untranslatable(f"{fname}: {cname} is not a declared state class")
+                else:
+                    node = slice_function(node, item[2])
+                fname = node.name
+        text, fi = FunTranslator(node, classes, funs, strtab, ctx, objects).run()
         funs[fname] = fi
-        out.append(f"(* {rel}: {fname}({', '.join(fi.params)}); mutates parameters {sorted(fi.mutated)} *)")
+        if objects and "." in item[1]:
+            ctx.method_owner[fname] = item[1].split(".", 1)[0]
+        out.append(f"(* {rel}: {item[1] if '.' in item[1] else fname}({', '.join(fi.params)}); mutates parameters {sorted(fi.mutated)} *)")
         out.append(text)
         out.append(f"Definition fn_{fname} (fuel : nat) : list val -> res (val * list val) :=\n"
                    f"  run_fun ({prev_ft}) src_{fname} fuel.")
         out.append(f"Definition ft_{k} (fuel : nat) : ftable := ft_add {cstr(fname)} (fn_{fname} fuel) ({prev_ft}).")
         out.append("")
         prev_ft = f"ft_{k} fuel"
+    if section:
+        out.append("End Gen.")
+        out.append("")
     out.append("(* string literals of the translated functions, as opaque tokens (EStr / VStr) *)")
     for lit, tok in strtab.items():
         ident = "".join(c if c.isalnum() else "_" for c in lit) or "empty"
